@@ -1874,12 +1874,12 @@ impl ReManager {
             BaseRegLan::Epsilon => false,
             BaseRegLan::Range(set) => set.contains(c),
             BaseRegLan::Concat(e1, e2) => {
-                self.start_char(e1, c) || e1.nullable && self.start_char(e2, c)
+                self.start_char(e1, c) && !self.is_empty_re(e2)
+                    || e1.nullable && self.start_char(e2, c)
             }
             BaseRegLan::Loop(e, _) => self.start_char(e, c),
-            BaseRegLan::Inter(args) => args.iter().all(|x| self.start_char(x, c)),
             BaseRegLan::Union(args) => args.iter().any(|x| self.start_char(x, c)),
-            BaseRegLan::Complement(_) => {
+            BaseRegLan::Inter(_) | BaseRegLan::Complement(_) => {
                 // expensive case
                 let d = self.deriv(e, c);
                 !self.is_empty_re(d)
